@@ -155,10 +155,10 @@ Proof.
   intro H. bstep H as [t1 ev] E1. inversion H; subst. eapply ts_feed_shape. exact E1.
 Qed.
 
-Lemma bc_rtsp_shape g m r : bc_rtsp fx rf acfg c g m = Ok r -> q_shape (rs_done (g_rtsp g)) (rs_cache (g_rtsp g)) m (rs_done r) (rs_cache r).
+Lemma bc_rtsp_shape g m r x : bc_rtsp fx rf acfg c g m = Ok (r, x) -> q_shape (rs_done (g_rtsp g)) (rs_cache (g_rtsp g)) m (rs_done r) (rs_cache r).
 Proof.
   unfold bc_rtsp. destruct (gc_rtsp c); [|intro H; inversion H; subst; left; split; reflexivity].
-  rewrite ADD. intro H. bstep H as [r1 ev] E1. inversion H; subst.
+  rewrite ADD. intro H. bstep H as [r1 ev] E1. bstep H as x1 E2. inversion H; subst.
   pose proof FX as (FM & _ & FR & _). eapply (rtsp_feed_shape fx rf acfg FM FR). exact E1.
 Qed.
 
@@ -179,11 +179,11 @@ Proof.
   pose proof (msg_cost_pos m) as Hpos.
   destruct (mm_pay m) as [|b0 rest] eqn:Ep.
   { inversion H; subst. repeat split. unfold fan. nia. }
-  bstep H as t E1. bstep H as r E2. bstep H as rsubs E3. bstep H as fsubs E4.
+  bstep H as t E1. bstep H as [r [sdp' rsubs']] E2. bstep H as rsubs E3. bstep H as fsubs E4.
   bstep H as rg E5. bstep H as fg E6. bstep H as [[[ac vc] w] h] E7.
   inversion H; subst. clear H.
   pose proof (q_shape_cost _ _ _ _ _ (bc_ts_shape g m t E1)) as H1.
-  pose proof (q_shape_cost _ _ _ _ _ (bc_rtsp_shape g m r E2)) as H2.
+  pose proof (q_shape_cost _ _ _ _ _ (bc_rtsp_shape g m r _ E2)) as H2.
   pose proof (subs_step_len _ _ _ _ E3) as L3. pose proof (subs_step_len _ _ _ _ E4) as L4.
   repeat split.
   - unfold bc_cost, pending. cbn [g_ts g_rtsp]. fold (fan g). rewrite N.mul_add_distr_r.
@@ -342,7 +342,7 @@ Lemma on_read_amort g m :
 Proof.
   intros Hi Hs Hts HF. unfold on_read. destruct (gc_dummy c) as [wait|].
   - destruct Hi as (Hi1 & Hi2 & Hi3 & Hi4).
-    pose proof FX as ((F1 & F2 & _) & _ & _ & FD).
+    pose proof FX as ((F1 & F2 & _) & _ & _ & FD & _).
     destruct (dummy_feed_ok (stat_safe rf sf) (fun ts => proj1 (GEN rf sf ts)) (fun ts => proj2 (GEN rf sf ts)) fx F1 F2 FD wait (g_dummy g) m Hi3 Hi4 Hts Hs)
       as (outs & d' & E & Ho & _ & Hd1 & Hd2).
     destruct (dummy_feed_amort fx F1 F2 FD wait (g_dummy g) m Hi4 Hts) as (outs2 & d2 & E2 & Hcost).
@@ -364,6 +364,11 @@ Proof.
     rewrite N.mul_add_distr_r. lia.
 Qed.
 
+Lemma phi_try_play g : phi (try_play g) = phi g.
+Proof. unfold try_play. destruct (g_sdp g) as [[[|] k]|]; reflexivity. Qed.
+Lemma fan_try_play g : fan (try_play g) = fan g.
+Proof. unfold try_play. destruct (g_sdp g) as [[[|] k]|]; reflexivity. Qed.
+
 Lemma gtotal_amort l : forall g,
   ginv rf sf g -> Forall (ev_ok rf sf) l -> fan g + joins_count l + 2 <= F ->
   exists tot, gtotal fx cf rf sf acfg c g l = Some tot /\
@@ -372,10 +377,11 @@ Proof.
   induction l as [|e t IH]; intros g Hi Hl HF; cbn [gtotal pubs_cost pubs_count joins_count].
   - exists 0. split; [reflexivity|]. lia.
   - inversion Hl as [|? ? He Ht]; subst.
-    destruct e as [m| | |]; cbn [gstep].
+    destruct e as [m| | | |]; cbn [gstep].
     + destruct He as [Hs Hts]. cbn [joins_count] in HF.
-      destruct (on_read_amort g m Hi Hs Hts ltac:(lia)) as (g' & k & -> & Hi' & Hfan & Hk).
-      destruct (IH g' Hi' Ht ltac:(lia)) as (r & -> & Hr).
+      destruct (on_read_amort g m Hi Hs Hts ltac:(lia)) as (g' & k & -> & Hi' & Hfan & Hk). cbn [bind].
+      destruct (IH (try_play g') (ginv_try_play rf sf g' Hi') Ht ltac:(rewrite fan_try_play; lia)) as (r & -> & Hr).
+      rewrite phi_try_play in Hr.
       eexists. split; [reflexivity|]. rewrite !N.mul_add_distr_l. lia.
     + cbn [joins_count] in HF.
       match goal with |- context [gtotal fx cf rf sf acfg c ?g1 t] =>
@@ -389,6 +395,11 @@ Proof.
           [destruct Hi as (H1 & H2 & H3 & H4); repeat split; assumption|exact Ht| |] end.
       * unfold fan in *. cbn [g_rtmp_subs g_flv_subs]. rewrite lenN_app. change (lenN [join_sub g]) with 1. lia.
       * eexists. split; [reflexivity|]. unfold phi, pending in *. cbn [g_ts g_rtsp g_dummy] in Hr. lia.
+    + cbn [joins_count] in HF.
+      match goal with |- context [gtotal fx cf rf sf acfg c ?g1 t] =>
+        destruct (IH g1) as (r & -> & Hr);
+          [apply ginv_try_play; destruct Hi as (H1 & H2 & H3 & H4); repeat split; assumption|exact Ht|rewrite fan_try_play; exact HF|] end.
+      eexists. split; [reflexivity|]. rewrite phi_try_play in Hr. unfold phi, pending in *. cbn [g_ts g_rtsp g_dummy set_rsubs] in Hr. lia.
     + cbn [joins_count] in HF. destruct (IH g Hi Ht HF) as (r & -> & Hr). eexists. split; [reflexivity|]. lia.
 Qed.
 End History.
